@@ -163,3 +163,31 @@ class OdRecord:
         if sub not in self.params:
             raise KeyError(sub)
         return self.params[sub]
+
+
+class SetOd:
+    """object dictionary that contains exactly the given indexes (for PdoMaps construction)"""
+
+    def __init__(self, present):
+        self.present = present
+
+    def __contains__(self, index):
+        return index in self.present
+
+
+class SdoOfNode:
+    def __getitem__(self, index):
+        return ("record", index)
+
+
+class NodeWithOd:
+    def __init__(self, node_id, present):
+        self.id = node_id
+        self.object_dictionary = SetOd(present)
+        self.sdo = SdoOfNode()
+
+
+class PdoNodeOf:
+    def __init__(self, node):
+        self.node = node
+        self.network = None
